@@ -9,7 +9,7 @@ from bv.model import UnitModel, dims_of_quantity
 PID = "C09"
 RULE = (
     "The grid x-kind (Scalar on a simple/derived/empty quantity; Array on a simple/derived quantity backed by list, "
-    "tuple, ndarray (float64, also int64 and float32), list/tuple of Python ints up to 4e18 (int and float k only), lengths 0..4; FixedArray list/ndarray; units drawn from every quantity type, half of the time the base unit of the type, with the dimensionless '-' among the favoured) x k-type (int, float, numpy float64/float32/int32/int64, "
+    "tuple, ndarray (float64, also int64 and float32), list/tuple of Python ints up to 4e18 (int and float k only), lengths 0..4; FixedArray list/ndarray; units drawn from every quantity type, half of the time the base unit of the type, with the dimensionless '-' among the favoured; x also created directly on a derived quantity that writes one quantity type in two units (Scalar, list, ndarray), checked against the bug model of known finding 31) x k-type (int, float, numpy float64/float32/int32/int64, "
     "0-d ndarray for Arrays; 1-d float64/int64 ndarray of equal length for Arrays) x the ten forms k*x x*k x/k x//k x+k "
     "k+x x-k k-x k/x k//x is enumerated completely for every Hypothesis draw of (unit/category choice, k magnitude, "
     "element values). Oracle: the result is an instance of x's class carrying a quantity; for the eight non-reciprocal "
@@ -33,6 +33,8 @@ XKINDS = [
     "fixedarray_list_simple", "fixedarray_ndarray_simple", "fixedarray_tuple_derived",
     # lists / tuples of Python ints up to 4e18: Python numbers do not overflow, so neither may the result
     "array_listint_simple", "array_tupleint_simple", "fixedarray_listint_simple",
+    # x created directly on a derived quantity that writes one quantity type in two units (m.cm); see check_mixed
+    "scalar_mixed", "array_list_mixed", "array_ndarray_mixed",
 ]
 
 
@@ -139,6 +141,8 @@ class Checker:
             cont, qkind = rest.split("_")
         if qkind == "simple":
             q = ObtainQuantity(case["u1"], case["c1"])
+        elif qkind == "mixed":
+            q = Quantity.CreateDerived(OrderedDict((c, [u, e]) for c, u, e in case["mixed"]))
         elif qkind == "empty":
             q = Quantity.CreateEmpty()
         else:
@@ -199,6 +203,8 @@ class Checker:
             return
         qr = r.GetQuantity()
         recip = form in ("k/x", "k//x")
+        if "mixed" in case["xkind"] and (recip or qr != qx):
+            return self.check_mixed(case, x, xv, cls, form, ktype, k, r)
         if not recip:
             if qr != qx:
                 ctx.fail("quantity_changed:%s:%s" % (form, cls.__name__), case, "%s: x has quantity %r, the result %r" % (form, qx, qr))
@@ -239,6 +245,56 @@ class Checker:
             ctx.nontrivial(cell, {"cell": cell, "k": k, "x": repr(x), "result": repr(r)} if (len(ctx.samples) < 10 and nump and left) else None)
 
 
+def _check_mixed(self, case, x, xv, cls, form, ktype, k, r):
+    """x writes one quantity type in two units.  The statement wants x's quantity kept and the operator applied to the
+    value(s).  Scalars do that; the reciprocal forms and every Array form first match x's units to each other (the unit
+    written first for a quantity type wins).  Bug model (known findings): result quantity = x's categories in the
+    matched units, result values = operator applied to x's values re-expressed in the matched units - for * and / the
+    amount is still right, for + - // the number is applied in the matched units and the amount is another one."""
+    from barril.units import Scalar
+
+    ctx, um = self.ctx, self.um
+    spec = case["mixed"]
+    first, f = {}, 1.0
+    for c, u, e in spec:
+        fu = first.setdefault(um.qt[u], u)
+        f *= (um.slope[u] / um.slope[fu]) ** e
+    tot = {}
+    for c, u, e in spec:
+        tot[um.qt[u]] = tot.get(um.qt[u], 0) + e
+    if not (1e-12 < abs(f) < 1e12):
+        ctx.cls("mixed_units_skipped_extreme_factor")  # float32 operands overflow there: numpy's business
+        return
+    recip = form in ("k/x", "k//x")
+    mult = form in ("k*x", "x*k", "x/k", "x//k", "k/x", "k//x")
+    sign = -1 if recip else 1
+    want_map = [(c, first[um.qt[u]], sign * e) for c, u, e in spec if not (mult and tot[um.qt[u]] == 0)]
+    got_map = [(c, u, e) for c, (u, e) in r.GetQuantity().GetCategoryToUnitAndExps().items()]
+    ctx.ev()
+    if got_map != want_map:
+        ctx.fail("quantity_changed:%s:%s:mixed_units" % (form, cls.__name__), case, "%s with x=%r: the result has %r, neither x's quantity nor x's categories in the matched units %r" % (form, x, got_map, want_map))
+        return
+    rv = [r.GetValue()] if cls is Scalar else list(r.GetValues())
+    ks = list(k) if ktype.startswith("nd1") else [k] * len(xv)
+    rel = 1e-6 if (ktype == "np.float32") else 1e-9
+    for kk, v, got in zip(ks, xv, rv):
+        want = ref_value(form, kk, v * f)
+        if "//" in form and ktype == "np.float32":
+            continue
+        if not core.close(float(got), want, abs(want) + abs(float(kk)) + abs(v * f), rel):
+            if "//" in form and abs(float(got) - want) <= 1.0 and abs(ref_value(form.replace("//", "/"), kk, v * f) - round(ref_value(form.replace("//", "/"), kk, v * f))) < 1e-6:
+                continue  # the re-expressed value sits on an integer boundary of the floor
+            ctx.fail("value_wrong:%s:%s:mixed_units" % (form, cls.__name__), case, "%s with k=%r, x=%r: got %r; x re-expressed in the matched units is %r, the operator gives %r" % (form, kk, x, got, v * f, want))
+            return
+    if form in ("k*x", "x*k", "x/k", "k/x"):
+        ctx.fail("quantity_not_kept:x_mixes_units_of_one_type:units_matched_first:amount_right", case, "%s with x=%r gives %r: x's units were matched to each other first (the amount is right)" % (form, x, r))
+    else:
+        ctx.fail("number_applied_in_matched_units:x_mixes_units_of_one_type:%s" % ("floor" if "//" in form else "additive"), case, "%s with k=%r, x=%r gives %r: the number was applied after x's units were matched to each other" % (form, k, x, r))
+
+
+Checker.check_mixed = _check_mixed
+
+
 def grid():
     for xkind in XKINDS:
         for ktype in KTYPES:
@@ -265,6 +321,21 @@ def _strategies(db, um):
         u = draw(st.one_of(st.just(us[0]), st.sampled_from(us)))
         return u, draw(st.sampled_from(cats[qt]))
 
+    mqts = [qt for qt in qts if len(cats[qt]) >= 2 and len(um.scale_units(qt)) >= 2]
+
+    @st.composite
+    def mixed_spec(draw):
+        qt = draw(st.sampled_from([q for q in fav if q in mqts] + mqts[:20]))
+        c1, c2 = draw(st.permutations(cats[qt]))[:2]
+        u1, u2 = draw(st.permutations(list(um.scale_units(qt))[:8]))[:2]
+        e1, e2 = draw(st.sampled_from([(1, 1), (1, 2), (2, -1), (1, -1), (-1, 2)]))
+        spec = [[c1, u1, e1], [c2, u2, e2]]
+        if draw(st.booleans()):
+            qt3 = draw(st.sampled_from(fav))
+            if qt3 != qt:
+                spec.append([draw(st.sampled_from(cats[qt3])), draw(st.sampled_from(list(um.scale_units(qt3))[:6])), draw(st.sampled_from([1, -1]))])
+        return spec
+
     @st.composite
     def base(draw):
         u1, c1 = draw(uc())
@@ -282,8 +353,10 @@ def _strategies(db, um):
             "u2": u2,
             "c2": c2,
             "e2": e2,
-            "kmag": draw(st.one_of(st.sampled_from([2.0, 3.0, -2.0, 7.0, 0.0, 1.0, -1.0, 0.0]), gen.moderate_values(1.0, 1e3))),
-            "values": draw(st.lists(gen.moderate_values(1e-2, 1e4), min_size=0, max_size=4)),
+            # (decimal fractions on both sides: 1.0 // 0.1 is 9.0, the floor of the rounded quotient would be 10.0)
+            "kmag": draw(st.one_of(st.sampled_from([2.0, 3.0, -2.0, 7.0, 0.0, 1.0, -1.0, 0.0, 0.1, 0.3, 0.7]), gen.moderate_values(1.0, 1e3))),
+            "values": draw(st.lists(st.one_of(gen.moderate_values(1e-2, 1e4), st.sampled_from([1.0, 6.0, 0.3, 0.9, 2.1, 0.6, 4.2])), min_size=0, max_size=4)),
+            "mixed": draw(mixed_spec()),
             "bigints": draw(st.lists(st.one_of(st.integers(-4 * 10**18, 4 * 10**18), st.integers(-1000, 1000), st.sampled_from([2**62, -(2**62), 2**63 - 1, 10**18])), min_size=0, max_size=4)),
         }
 
